@@ -31,7 +31,7 @@ Proof.
     rewrite Z.mod_mul by lia. rewrite Z.eqb_refl. rewrite Z.div_mul by lia. apply IH; [lia | assumption | assumption].
 Qed.
 
-Lemma canonical_equiv v lo hi : 1 <= lo -> hi < 10 ^ 20 ->
+Lemma canonical_equiv_gen v lo hi : 1 <= lo \/ 1 <= v -> hi < 10 ^ 20 ->
   is_canonical_within v lo hi = canonical_spec v lo hi.
 Proof.
   intros Hlo Hhi. unfold is_canonical_within, canonical_spec.
@@ -58,6 +58,57 @@ Proof.
       assert (Hex : existsb (fun k : nat => let p := 10 ^ Z.of_nat k in (v =? p) || (v =? 2 * p) || (v =? 5 * p)) (seq 0 20) = true).
       { apply existsb_exists. exists j. split; [apply in_seq; lia|]. cbv zeta. lia. }
       rewrite Hex in X. discriminate.
+Qed.
+
+Lemma canonical_equiv v lo hi : 1 <= lo -> hi < 10 ^ 20 ->
+  is_canonical_within v lo hi = canonical_spec v lo hi.
+Proof. intros H1 H2. apply canonical_equiv_gen; [left; exact H1 | exact H2]. Qed.
+
+(** * Non-termination on zero.
+    The loop [while n.is_multiple_of(10) { n /= 10 }] has 0 as a fixed point of its body that
+    satisfies its guard: started on 0 it never exits. The model with the exit made visible
+    returns [None] (still running) for every amount of fuel. *)
+Lemma strip_zero_never_exits : forall fuel, strip_radix_opt fuel 0 = None.
+Proof. induction fuel as [|f IH]; [reflexivity|]. cbn [strip_radix_opt]. exact IH. Qed.
+
+Lemma strip_opt_some : forall fuel v, 1 <= v < 10 ^ Z.of_nat fuel ->
+  strip_radix_opt fuel v = Some (strip_radix fuel v).
+Proof.
+  induction fuel as [|f IH]; intros v Hv.
+  - change (10 ^ Z.of_nat 0) with 1 in Hv. lia.
+  - cbn [strip_radix_opt strip_radix]. unfold DENOMINATION_RADIX.
+    destruct (v mod 10 =? 0) eqn:E; [|reflexivity].
+    rewrite Nat2Z.inj_succ, Z.pow_succ_r in Hv by lia.
+    pose proof (Z.div_mod v 10 ltac:(lia)). apply IH. split; [lia|]. apply Z.div_lt_upper_bound; lia.
+Qed.
+
+(** the test terminates (and agrees with the total model) unless it is asked about 0 under a
+    non-positive lower bound *)
+Lemma canonical_opt_terminates v lo hi : 0 <= v < 10 ^ 64 -> 1 <= lo \/ 1 <= v ->
+  is_canonical_within_opt v lo hi = Some (is_canonical_within v lo hi).
+Proof.
+  intros Hv Hp. unfold is_canonical_within_opt, is_canonical_within.
+  destruct ((v <? lo) || (hi <? v)) eqn:R; [reflexivity|].
+  rewrite strip_opt_some; [reflexivity|]. change (Z.of_nat 64) with 64. lia.
+Qed.
+
+(** KNOWN FINDING (class 2): value 0 under a zero lower bound never gets an answer *)
+Lemma canonical_zero_bound_refuted : forall hi, 0 <= hi -> is_canonical_within_opt 0 0 hi = None.
+Proof.
+  intros hi Hhi. unfold is_canonical_within_opt. replace ((0 <? 0) || (hi <? 0)) with false by lia.
+  rewrite strip_zero_never_exits. reflexivity.
+Qed.
+
+Lemma canonical_opt_none_iff v lo hi : 0 <= v < 10 ^ 64 ->
+  (is_canonical_within_opt v lo hi = None <-> v = 0 /\ lo <= 0 /\ 0 <= hi).
+Proof.
+  intros Hv. split.
+  - intros H. destruct (Z_le_gt_dec 1 v) as [G|G].
+    + rewrite canonical_opt_terminates in H by (try right; lia). discriminate.
+    + assert (v = 0) by lia. subst v. unfold is_canonical_within_opt in H.
+      destruct ((0 <? lo) || (hi <? 0)) eqn:R; [discriminate | lia].
+  - intros (-> & Hlo & Hhi). unfold is_canonical_within_opt.
+    replace ((0 <? lo) || (hi <? 0)) with false by lia. rewrite strip_zero_never_exits. reflexivity.
 Qed.
 
 Lemma canonical_equiv_wf v lo hi : 1 <= lo -> hi <= 21000000 * COIN ->
